@@ -155,6 +155,29 @@ public:
         D->printQualifiedName(os, PP);
         return os.str();
     }
+    // full name of a record: with template arguments for instantiations
+    std::string recName(const CXXRecordDecl* RD)
+    {
+        if (isa<ClassTemplateSpecializationDecl>(RD) && !RD->isDependentContext() && RD->getTypeForDecl())
+            return typeStr(QualType(RD->getTypeForDecl(), 0));
+        return qname(RD);
+    }
+    // location of the source text a record was made from (explicit instantiations are located at the
+    // `template class X<..>;` line, which may be outside the roots)
+    SourceLocation recLoc(const CXXRecordDecl* RD)
+    {
+        if (auto* CS = dyn_cast<ClassTemplateSpecializationDecl>(RD))
+            if (!CS->isExplicitSpecialization() && !isa<ClassTemplatePartialSpecializationDecl>(RD))
+            {
+                auto P = CS->getInstantiatedFrom();
+                if (auto* PS = P.dyn_cast<ClassTemplatePartialSpecializationDecl*>())
+                    return PS->getLocation();
+                if (auto* CT = P.dyn_cast<ClassTemplateDecl*>())
+                    return CT->getTemplatedDecl()->getLocation();
+                return CS->getSpecializedTemplate()->getTemplatedDecl()->getLocation();
+            }
+        return RD->getLocation();
+    }
     // qualified name of the template / class without template arguments
     std::string tmplName(const DeclContext* DC)
     {
@@ -794,7 +817,7 @@ public:
         }
         s += ",\"ret\":" + jstr(typeStr(FD->getReturnType()));
         if (auto* RD = dyn_cast<CXXRecordDecl>(FD->getDeclContext()))
-            s += ",\"record\":" + jstr(qname(RD));
+            s += ",\"record\":" + jstr(recName(RD));
         if (auto* MD = dyn_cast<CXXMethodDecl>(FD))
         {
             if (MD->isConst())
@@ -906,17 +929,17 @@ public:
     {
         if (!RD->isThisDeclarationADefinition() || RD->isLambda() || RD->isImplicit())
             return true;
-        if (!inRoots(RD->getLocation()))
+        if (!inRoots(recLoc(RD)))
             return true;
         if (!seenR.insert(RD).second)
             return true;
         bool dep = RD->isDependentContext();
         std::string s = "{\"name\":" + jstr(RD->getNameAsString());
-        s += ",\"qname\":" + jstr(qname(RD));
+        s += ",\"qname\":" + jstr(recName(RD));
         s += ",\"tmpl\":" + jstr(tmplName(RD));
         s += ",\"dep\":" + std::string(dep ? "true" : "false");
-        s += ",\"file\":" + jstr(fileOf(RD->getLocation()));
-        s += ",\"line\":" + std::to_string(lineOf(RD->getLocation()));
+        s += ",\"file\":" + jstr(fileOf(recLoc(RD)));
+        s += ",\"line\":" + std::to_string(lineOf(recLoc(RD)));
         s += ",\"targs\":" + classTargs(RD);
         if (isa<ClassTemplatePartialSpecializationDecl>(RD))
             s += ",\"partial\":true";
